@@ -19,7 +19,7 @@ var (
 )
 
 func c07Init(w *harness.World) {
-	v := harness.Choose(5, harness.ClassOp)
+	v := harness.Choose(6, harness.ClassOp)
 	w.Hist = append(w.Hist, fmt.Sprintf("init%d", v))
 	w.SetCollection("x", "nil")
 	three := func() {
@@ -50,6 +50,13 @@ func c07Init(w *harness.World) {
 		w.Flush()
 		w.SetItem("x", bs("f"), 5, bs("vf"))
 		w.Evict("x")
+	case 5: // two collections, both with unflushed changes (x is written before y)
+		three()
+		w.SetCollection("y", "nil")
+		w.SetItem("y", bs("a"), 1, bs("ya"))
+		w.Flush()
+		w.SetItem("x", k7b, 2, bs("vb2"))
+		w.SetItem("y", bs("d"), 2, bs("yd"))
 	}
 	w.File.FaultMode = 1
 }
@@ -125,7 +132,7 @@ func c07ExecMon(depth int, maxFaults int, tornAll bool, mon harness.Monitors) ex
 						w.File.FaultMode = 0
 					}
 					if w.NeedReopen || w.OpenFailed || len(w.Viols) > 0 {
-						return
+						return // (a call that swallowed the failure reported success: nothing to retry)
 					}
 					// both continuations are explored: retry the failed call, or go on without it
 					if harness.Choose(2, harness.ClassOp) == 1 {
@@ -149,7 +156,7 @@ func c07ExecMon(depth int, maxFaults int, tornAll bool, mon harness.Monitors) ex
 			w.Hist = append(w.Hist, "RetryOpen")
 			w.Reopen(false)
 		}
-		if w.Closed || len(w.Viols) > 0 {
+		if w.Closed || !w.OnlySwallowed() {
 			return
 		}
 		if _, ok := w.Colls["x"]; !ok {
@@ -158,9 +165,15 @@ func c07ExecMon(depth int, maxFaults int, tornAll bool, mon harness.Monitors) ex
 		w.SetItem("x", bs("h"), 45, bs("vh"))
 		w.Flush()
 		w.ObserveAll()
+		if mon.Invariant {
+			w.CheckInvariants()
+		}
 		w.CheckDurable()
 		w.Reopen(true)
 		w.ObserveAll()
+		if mon.Invariant {
+			w.CheckInvariants()
+		}
 		if mon.RefCount {
 			// never negative, never used after release.  A zero balance after
 			// Close is NOT demanded here: no property covers references held by
@@ -181,7 +194,7 @@ func c07ExecMon(depth int, maxFaults int, tornAll bool, mon harness.Monitors) ex
 func c07Profiles(tier string) []Profile {
 	sparse := "writes failing outright and after 0, 1, n/2, n-1 bytes applied"
 	rule := func(d int, torn string, rnd string) string {
-		return fmt.Sprintf("5 initial stores (empty; 3 items flushed and re-opened; two root records with the tree cached; a 7-item tree flushed and re-opened; durable state plus unflushed changes) x every history of length <= %d over Get/GetItem/Min/Totals/visit/iterator/Len/Exist/Set (overwrite and new key)/Delete/Evict/Flush/CopyTo(flushEvery 0,1; faults on the source and, separately, on the destination file)/FlushRevert/Reopen x one failing file call at every ReadAt/WriteAt/Stat/Truncate index, %s; eviction walks follow %s; the failed call is either retried at once or not retried (both explored) and the history continues fault-free; then a fixed suffix runs (re-open after a failed open/FlushRevert; Set; Flush; full read battery; copy of the file re-opened; Reopen; full read battery). Oracles: the failing call returns an error and no data, nothing panics or hangs, contents equal the model unchanged by the failed call, the file re-opens to a durable state of the model, the retried call and everything after behave per model", d, torn, rnd)
+		return fmt.Sprintf("6 initial stores (empty; 3 items flushed and re-opened; two root records with the tree cached; a 7-item tree flushed and re-opened; durable state plus unflushed changes; two collections with unflushed changes in both) x every history of length <= %d over Get/GetItem/Min/Totals/visit/iterator/Len/Exist/Set (overwrite and new key)/Delete/Evict/Flush/CopyTo(flushEvery 0,1; faults on the source and, separately, on the destination file)/FlushRevert/Reopen x one failing file call at every ReadAt/WriteAt/Stat/Truncate index, %s; eviction walks follow %s; the failed call is either retried at once or not retried (both explored) and the history continues fault-free; then a fixed suffix runs (re-open after a failed open/FlushRevert; Set; Flush; full read battery; copy of the file re-opened; Reopen; full read battery). Oracles: the failing call returns an error and no data, nothing panics or hangs, contents equal the model unchanged by the failed call, the file re-opens to a durable state of the model, the retried call and everything after behave per model", d, torn, rnd)
 	}
 	if tier != "thorough" {
 		return []Profile{{Name: "single", Exec: c07Exec(2, 1, false), Budget: map[int]int{explore.ClassFault: 1, explore.ClassRand: 0}, ShardLevel: 3,
